@@ -86,6 +86,18 @@ pub fn replay(path: &str) -> i32 {
         Err(e) => harness_error(&format!("{path}: {e}")),
     };
     let prop = v["property"].as_str().unwrap_or("");
+    if v["witness"]["kind"] == "in-session" {
+        // found on a service instance that had served other requests; by construction the case holds on a fresh service
+        println!("note: this violation was seen only on a service instance that had served earlier requests (they are listed in the witness under earlier_requests_on_the_same_service); replaying the request alone is expected to hold - re-run the check with the recorded seed to see it again");
+        let mut inner = v.clone();
+        inner["witness"] = v["witness"]["witness"].clone();
+        return replay_value(&inner, prop);
+    }
+    replay_value(&v, prop)
+}
+
+fn replay_value(v: &serde_json::Value, prop: &str) -> i32 {
+    let v = v.clone();
     match prop {
         #[cfg(feature = "sdk")]
         "C01" => c01::replay(&v),
